@@ -39,11 +39,18 @@ func valueConfig(r *vl.Rng, i int) idlgen.Config {
 	cfg.MaxServices = 1
 	cfg.SafeNames = i%3 != 2 // every third program takes its names from the stress pool
 	cfg.KeywordNames = false
+	// shapes the tree digests since af2ab0e / 4cb0c25 / 0728d24 / 029e141 / c3bf0fd
+	cfg.TypedefContainerConst = true
+	cfg.CrossFileLiteralIdents = true
+	cfg.StructLiteralInContainer = true
+	cfg.OptionalEnumInLiteral = true
+	cfg.BinaryConstIdents = true
 	_ = r
 	return cfg
 }
 
 type unitData struct {
+	textOnly bool // the unit does not compile: only the text suite runs on it
 	defect string // the unit replays a known defect: oracle failures are reported under this stable key
 	u      *batch.UnitInfo
 	prog   *idlgen.Program
@@ -134,16 +141,23 @@ func run(repo, dir string, seed uint64, tier string, nprog, nwild int, keep bool
 		}
 	}
 	defectOf := map[int]string{}
-	for _, cp := range catalogue() {
-		sets := [][]string{{}}
-		if cp.defect == "" {
-			sets = append(sets, []string{"enum_as_int_32", "naming_style=golint", "nil_safe"})
+	{
+		// the catalogue (regression items first) goes in front of the random programs
+		var cat []batch.Unit
+		for _, cp := range catalogue() {
+			sets := [][]string{{}}
+			if cp.vtic {
+				sets = append(sets, []string{"value_type_in_container"})
+			} else {
+				sets = append(sets, []string{"enum_as_int_32", "naming_style=golint", "nil_safe"})
+			}
+			for _, o := range sets {
+				defectOf[len(cat)] = cp.defect
+				cat = append(cat, batch.Unit{Prog: cp.prog, Recurse: true, Options: o, Tag: "cat:" + cp.name, NoSynth: true})
+			}
+			out.Count("catalogue." + cp.name)
 		}
-		for _, o := range sets {
-			defectOf[len(units)] = cp.defect
-			units = append(units, batch.Unit{Prog: cp.prog, Recurse: true, Options: o, Tag: "cat:" + cp.name, NoSynth: true})
-		}
-		out.Count("catalogue." + cp.name)
+		units = append(cat, units...)
 	}
 	b, err := batch.Build(work, repo, units, nil)
 	if b != nil {
@@ -154,7 +168,7 @@ func run(repo, dir string, seed uint64, tier string, nprog, nwild int, keep bool
 		return 2
 	}
 	mod := filepath.Join(work, "mod")
-	var uds []*unitData
+	var uds, textUnits []*unitData
 	bad := 0
 	for i := range b.Units {
 		u := &b.Units[i]
@@ -163,6 +177,15 @@ func run(repo, dir string, seed uint64, tier string, nprog, nwild int, keep bool
 			out.Count("unit.unusable")
 			out.Sample(map[string]interface{}{"unusable_unit": u.Key, "options": u.Options, "build": first(u.BuildErrors, 3), "exit": u.Exit, "stderr": firstLines(u.Stderr, 3)})
 			fmt.Printf("UNIT %s unusable (C01's business): exit=%d %s %s\n", u.Key, u.Exit, firstLines(u.Stderr, 2), strings.Join(first(u.BuildErrors, 2), " | "))
+			if u.Exit == 0 && len(u.ParseErrors) == 0 {
+				// the output parses but does not compile: no values, but the initialiser texts are still compared
+				tu := &unitData{u: u, prog: units[i].Prog, defect: defectOf[i], textOnly: true}
+				if tu.fr = runFront(tu.prog); tu.fr.err == nil {
+					tu.ug = scanUnit(mod, u, tu.prog)
+					tu.consts, _ = tu.ug.constDecls(tu.fr)
+					textUnits = append(textUnits, tu)
+				}
+			}
 			continue
 		}
 		ud := &unitData{u: u, prog: units[i].Prog, defect: defectOf[i]}
@@ -201,6 +224,17 @@ func run(repo, dir string, seed uint64, tier string, nprog, nwild int, keep bool
 	for _, ud := range uds {
 		lines = append(lines, valueOps(r, ud, out)...)
 		lines = append(lines, textOps(ud)...)
+	}
+	for _, ud := range textUnits {
+		for _, l := range ud.u.SchemaLines() {
+			lines = append(lines, &opLine{text: l, impl: "ok", ud: ud})
+		}
+		for _, l := range ud.fr.envLines(ud.u.Key, ud.u.Options, ud.u.Schema) {
+			lines = append(lines, &opLine{text: l, impl: "ok", ud: ud})
+		}
+		lines = append(lines, &opLine{text: "Q " + ud.u.Key, impl: "accept", ud: ud, what: "Q"})
+		lines = append(lines, textOps(ud)...)
+		out.Count("unit.text_only")
 	}
 	// ---- thriftgo-only suites: reject + text on programs that need not compile
 	if nwild < 0 {
@@ -411,6 +445,7 @@ func valueOps(r *vl.Rng, ud *unitData, out *vl.Out) []*opLine {
 	}
 
 	// structs: NewX, InitDefault, getters / IsSet
+	var aOps []*opLine
 	vcfg := valgen.Config{Count: out.Count, NilElems: !has(u.Options, "value_type_in_container")}
 	for sidx, st := range u.Schema.Structs {
 		key := fmt.Sprintf("%s:%d", u.Key, sidx)
@@ -445,6 +480,28 @@ func valueOps(r *vl.Rng, ud *unitData, out *vl.Out) []*opLine {
 			m.E[i] = g.E[i]
 			vals = append(vals, m)
 		}
+		if aliasesConstant(ud.prog, st) {
+			// a default written as the identifier of a container / struct / binary constant shares that constant's
+			// Go object by construction (`F: pkg.CONST`): modifying the field in place modifies the constant. Recorded
+			// in docs/C06.md as an observation; the history op would only restate it.
+			out.Count("skip.A.default_is_a_shared_constant")
+		} else {
+			// the aliasing history: InitDefault, in-place modification, InitDefault / getters on fresh objects
+			st, zero := st, st.Zero()
+			aOps = append(aOps, &opLine{text: "A " + key + " " + zero.String(), driver: true, ud: ud, what: "A", nontrivial: true, item: item, check: func(ans string) string {
+				parts := strings.SplitN(ans, " | ", 2)
+				if len(parts) != 2 {
+					return "history failed: " + ans
+				}
+				if msg := sameValue(parts[0], init); msg != "" {
+					return "second InitDefault after an in-place modification of the first object: " + msg
+				}
+				if msg := checkG(st, zero, parts[1]); msg != "" {
+					return "getters of a fresh object after an in-place modification of another: " + msg
+				}
+				return ""
+			}})
+		}
 		for _, v := range vals {
 			v := v
 			st := st
@@ -453,7 +510,7 @@ func valueOps(r *vl.Rng, ud *unitData, out *vl.Out) []*opLine {
 			}})
 		}
 	}
-	return ls
+	return append(ls, aOps...)
 }
 
 func countShape(out *vl.Out, what string, c *idlgen.Const) {
@@ -595,6 +652,38 @@ func reachesUnexported(u *batch.UnitInfo, sidx int, seen map[int]bool) bool {
 	for _, f := range u.Schema.Structs[sidx].Fields {
 		if walk(f.Type) {
 			return true
+		}
+	}
+	return false
+}
+
+// aliasesConstant: does a default of the struct refer, by identifier, to a constant whose Go object is mutable?
+func aliasesConstant(p *idlgen.Program, st *idlgen.SStruct) bool {
+	var has func(c *idlgen.Const) bool
+	has = func(c *idlgen.Const) bool {
+		if c == nil {
+			return false
+		}
+		if c.Kind == idlgen.CIdent && c.Val != nil {
+			switch c.Val.K {
+			case values.KList, values.KSet, values.KMap, values.KRecord, values.KBytes:
+				return true
+			}
+		}
+		for _, it := range c.Items {
+			if has(it) {
+				return true
+			}
+		}
+		return false
+	}
+	for _, s := range p.Files[st.File].Structs {
+		if s.Name == st.Name {
+			for _, f := range s.Fields {
+				if has(f.Default) {
+					return true
+				}
+			}
 		}
 	}
 	return false
